@@ -35,7 +35,7 @@ class C02(Prop):
             "hash of the rendered text")
     ASSUMPTIONS = ["expected doubles come from Python float() (correctly rounded), independent of the C library's strtod",
                    "only the C locale exists in this sandbox"]
-    REQUIRED_CLASSES = ["long_string>=1000", "escape", "nonascii", "fraction_or_exponent", "depth>=2", "duplicate_key", "bom",
+    REQUIRED_CLASSES = ["tiny_document", "compact_spelling", "long_string>=1000", "escape", "nonascii", "fraction_or_exponent", "depth>=2", "duplicate_key", "bom",
                         "depth=limit", "surrogate_pair", "escape_sweep_code_points", "wide_shallow>limit"]
 
     def budget(self, tier):
@@ -65,7 +65,38 @@ class C02(Prop):
             "style": st.sampled_from([None, None, "raw", "u", "short"]),
         })
 
+    def tiny_documents(self):
+        """every document made of at most two members/elements out of a few one-byte values and names (including the empty name),
+        spelt without blanks: texts of 1..20 bytes in which every kind of token is the last one before the end of the buffer"""
+        vals = [["L", "0"], ["L", "7"], ["t"], ["n"], ["S", b""], ["S", b"s"], ["A", []], ["O", []], ["L", "-1"], ["L", "1e1"], ["f"]]
+        names = [b"", b"k", b"ab"]
+        docs = list(vals)
+        for v in vals:
+            docs.append(["A", [v]])
+            for k in names:
+                docs.append(["O", [[k, v]]])
+        for v in vals[:6]:
+            for w in vals[:6]:
+                docs.append(["A", [v, w]])
+                docs.append(["O", [[b"k", v], [b"", w]]])
+                docs.append(["O", [[b"", v], [b"k", w]]])
+        for v in vals[:4]:
+            docs.append(["A", [["A", [v]]]])
+            docs.append(["O", [[b"", ["O", [[b"", v]]]]]])
+            docs.append(["A", [["O", [[b"", v]]]]])
+        return docs
+
     def prelude(self, lib, stats, index, nworkers, tier):
+        for i, jv in enumerate(self.tiny_documents()):
+            if i % nworkers == index:
+                text = model.emit_text(jv, random.Random(0), None, 0.0)
+                stats.cls("tiny_document")
+                stats.inner += 1
+                try:
+                    self.parse_all(lib, stats, text, model.expected_dump(jv), i)
+                except Violation as v:
+                    v.detail = {"case": {"kind": "doc", "jv": jv, "rseed": 0, "bom": False, "lead": b"", "trail": b"", "style": None, "tiny": True}}
+                    raise
         """exhaustive over the BMP (both hex cases, as value and as key); surrogate pairs: all 2^20 in the thorough tier,
         row boundaries + 1/16 sample in the quick tier; partitioned over the workers"""
         case = {"kind": "escapes", "part": index, "nparts": nworkers, "all_pairs": 0 if tier == "quick" else 1}
@@ -134,9 +165,18 @@ class C02(Prop):
         if classes:
             stats.nontriv(text, {"text": text, "expected_dump": want[:200]})
 
+        self.parse_all(lib, stats, text, want, case["rseed"])
+        if not case.get("tiny") and model.count_nodes(jv) <= 40:
+            # the same value without a single blank: every token ends where the next begins, the last one where the buffer ends
+            compact = model.emit_text(jv, random.Random(case["rseed"]), case.get("style"), 0.0)
+            if compact != text:
+                stats.cls("compact_spelling")
+                self.parse_all(lib, stats, compact, want, case["rseed"] + 1)
+
+    def parse_all(self, lib, stats, text, want, rseed):
         for vi, (entry, term, rq, want_end) in enumerate(VARIANTS):
             data = text + (b"\x00" if term else b"")
-            placement = (vi + case["rseed"]) & 1
+            placement = (vi + rseed) & 1
             po = lib.parse(entry, data, placement, rq, want_end)
             stats.inner += 1
             name = "entry=%d terminator=%d require_null_terminated=%d" % (entry, term, rq)
